@@ -1,9 +1,9 @@
 package props
 
 import (
-	"runtime"
 	"bytes"
 	"fmt"
+	"runtime"
 
 	"github.com/RoaringBitmap/roaring/v2"
 	"verifmc/internal/ev"
@@ -85,5 +85,8 @@ func runC09(c *Ctx) {
 	s3 := strict32(bfs32(fmt.Sprintf("S3keys/n%d/s%d", 17, 3), s3Ops(17, 3), 2))
 	scs = append(scs, s3)
 	scs = append(scs, c09Algebra(c)...)
+	pbv := pairBFS("V:copy-on-write pair closure", q, 2, true)
+	pbv.Deadline = c.Budget(118, 1700)
+	scs = append(scs, pbv)
 	runScenarios(c, scs...)
 }
